@@ -51,7 +51,9 @@ impl BF for f128::BaseElement {
 // correspondence: cases
 // ================================================================================================
 /// A field of the correspondence: base field or quadratic / cubic extension; elements travel as base coordinates.
-trait CF: FieldElement {
+trait CF: FieldElement + From<Self::Base> + ExtensionOf<Self::Base> {
+    /// the base field B of the mixed instantiations eval::<B, Self>, mul_acc::<B, Self> (Self for a base field)
+    type Base: BF + FieldElement<BaseField = <Self as FieldElement>::BaseField>;
     /// protocol token: f64 f62 f128 q64 q62 q128 c64 c62
     const TOKEN: &'static str;
     /// modulus of the base field
@@ -63,6 +65,7 @@ trait CF: FieldElement {
 macro_rules! cf_base {
     ($t:ty) => {
         impl CF for $t {
+            type Base = $t;
             const TOKEN: &'static str = <$t as BF>::NAME;
             const BP: u128 = <$t as BF>::P;
             const DEG: usize = 1;
@@ -81,6 +84,7 @@ cf_base!(f128::BaseElement);
 macro_rules! cf_quad {
     ($b:ty, $tok:expr) => {
         impl CF for QuadExtension<$b> {
+            type Base = $b;
             const TOKEN: &'static str = $tok;
             const BP: u128 = <$b as BF>::P;
             const DEG: usize = 2;
@@ -99,6 +103,7 @@ cf_quad!(f128::BaseElement, "q128");
 macro_rules! cf_cube {
     ($b:ty, $tok:expr) => {
         impl CF for CubeExtension<$b> {
+            type Base = $b;
             const TOKEN: &'static str = $tok;
             const BP: u128 = <$b as BF>::P;
             const DEG: usize = 3;
@@ -137,8 +142,19 @@ enum Op<C> {
     AddInPlace(Vec<C>, Vec<C>),
     MulAcc(Vec<C>, Vec<C>, C),
     BatchInv(Vec<C>),
+    /// mixed instantiations (extension fields only): the u128 vectors are base-field residues
+    EvalMixed(Vec<u128>, C),
+    EvalManyMixed(Vec<u128>, Vec<C>),
+    MulAccMixed(Vec<C>, Vec<u128>, C),
 }
 
+/// vector of base residues
+fn hv(v: &[u128]) -> String {
+    if v.is_empty() { "-".into() } else { v.iter().map(|x| format!("{:x}", x)).collect::<Vec<_>>().join(",") }
+}
+fn bvf<C: CF>(v: &[u128]) -> Vec<C::Base> {
+    v.iter().map(|&x| <C::Base as BF>::fu(x)).collect()
+}
 /// element: base coordinates in hex joined by ':'
 fn se<C: CF>(e: &C) -> String {
     e.coords().iter().map(|x| format!("{:x}", x)).collect::<Vec<_>>().join(":")
@@ -179,6 +195,9 @@ impl<C: CF> Op<C> {
             Op::AddInPlace(..) => "add_in_place",
             Op::MulAcc(..) => "mul_acc",
             Op::BatchInv(..) => "batch_inversion",
+            Op::EvalMixed(..) => "eval_mixed",
+            Op::EvalManyMixed(..) => "eval_many_mixed",
+            Op::MulAccMixed(..) => "mul_acc_mixed",
         }
     }
 
@@ -198,6 +217,9 @@ impl<C: CF> Op<C> {
             Op::Pow(b, n) => format!("{} {}", se(b), n),
             Op::PowOff(b, s, n) => format!("{} {} {}", se(b), se(s), n),
             Op::MulAcc(a, b, c) => format!("{} {} {}", sv(a), sv(b), se(c)),
+            Op::EvalMixed(p, x) => format!("{} {}", hv(p), se(x)),
+            Op::EvalManyMixed(p, xs) => format!("{} {}", hv(p), sv(xs)),
+            Op::MulAccMixed(a, b, c) => format!("{} {} {}", sv(a), hv(b), se(c)),
         }
     }
 }
@@ -270,6 +292,25 @@ fn exec<C: CF>(op: &Op<C>) -> String {
             q
         })),
         Op::BatchInv(v) => rv(c!(batch_inversion(v))),
+        Op::EvalMixed(p, x) => {
+            let pb = bvf::<C>(p);
+            match c!(polynom::eval::<C::Base, C>(&pb, *x)) {
+                Ok(v) => se(&v),
+                Err(_) => "panic".into(),
+            }
+        }
+        Op::EvalManyMixed(p, xs) => {
+            let pb = bvf::<C>(p);
+            rv(c!(polynom::eval_many::<C::Base, C>(&pb, xs)))
+        }
+        Op::MulAccMixed(a, b, cc) => {
+            let bb = bvf::<C>(b);
+            rv(c!({
+                let mut q = a.clone();
+                mul_acc::<C::Base, C>(&mut q, &bb, *cc);
+                q
+            }))
+        }
     }
 }
 
@@ -382,6 +423,44 @@ impl<C: CF> G<C> {
     }
     fn vec(&mut self, l: usize) -> Vec<C> {
         self.shape(l, 0, 0)
+    }
+    /// base residue: pool or random
+    fn bres(&mut self) -> u128 {
+        if self.r.below(3) == 0 { self.base_pool() } else { self.rres() }
+    }
+    /// base-field vector with the same shape discipline as `shape`
+    fn bshape(&mut self, l: usize, hz: usize, lz: usize) -> Vec<u128> {
+        if hz == ALL || hz >= l {
+            return vec![0; l];
+        }
+        let mut v: Vec<u128> = (0..l).map(|_| self.bres()).collect();
+        let top = l - hz;
+        for x in v.iter_mut().skip(top) {
+            *x = 0;
+        }
+        v[top - 1] = 1 + self.rres() % (C::BP - 1);
+        for x in v.iter_mut().take(lz.min(top - 1)) {
+            *x = 0;
+        }
+        if lz < top - 1 {
+            v[lz] = if self.r.chance(1, 2) { C::BP - 1 } else { 1 + self.rres() % (C::BP - 1) };
+        }
+        v
+    }
+    /// non-zero embedded base element (high coordinates zero)
+    fn embedded(&mut self) -> C {
+        loop {
+            let v = self.bres();
+            if v != 0 {
+                return self.k(v);
+            }
+        }
+    }
+    /// element whose low coordinate is zero and whose other coordinates are random non-zero
+    fn low_zero(&mut self) -> C {
+        let mut c: Vec<u128> = (0..C::DEG).map(|_| 1 + self.r.next_u128() % (C::BP - 1)).collect();
+        c[0] = 0;
+        C::from_coords(&c)
     }
     fn nzvec(&mut self, l: usize) -> Vec<C> {
         (0..l).map(|_| self.nz()).collect()
@@ -996,6 +1075,94 @@ fn boundary<C: CF>(g: &mut G<C>, lvl: u8, thorough: bool, out: &mut Vec<Op<C>>) 
     }
 }
 
+/// Boundary classes of the mixed instantiations eval::<B,E>, eval_many::<B,E>, mul_acc::<B,E> (extension fields only):
+/// base-field polynomial lengths 0,1,2,3,7,8,9,64 (+1024 in thorough, lvl 1) with zero leading / low coefficients,
+/// points 0, 1, embedded base element, zero low coordinate, random; mul_acc with equal lengths incl. 0, unequal
+/// lengths both ways (panic), c in {0, 1, embedded, random}, b entries incl. 0, 1, p-1.
+fn boundary_mixed<C: CF>(g: &mut G<C>, lvl: u8, thorough: bool, out: &mut Vec<Op<C>>) {
+    if !g.ext() {
+        return;
+    }
+    let p = C::BP;
+    let shapes = [(0usize, 0usize), (1, 0), (0, 1), (2, 1), (ALL, 0)];
+    let point = |g: &mut G<C>, i: usize| match i % 5 {
+        0 => C::ZERO,
+        1 => C::ONE,
+        2 => g.embedded(),
+        3 => g.low_zero(),
+        _ => g.rnd(),
+    };
+    let mut k = 0usize;
+    // ---- eval_mixed
+    for (i, l) in [0usize, 1, 2, 3, 7, 8, 9, 64].into_iter().enumerate() {
+        for _ in 0..(if lvl >= 1 { 2 } else { 1 }) {
+            let (hz, lz) = shapes[(i + k) % 5];
+            let pv = g.bshape(l, hz, lz);
+            let x = point(g, k);
+            k += 1;
+            out.push(Op::EvalMixed(pv, x));
+        }
+    }
+    for (l, hz, lz) in [(3usize, 1usize, 1usize), (8, ALL, 0), (8, 2, 2), (3, ALL, 0)] {
+        if lvl >= 1 || l == 8 {
+            let pv = g.bshape(l, hz, lz);
+            let x = point(g, k);
+            k += 1;
+            out.push(Op::EvalMixed(pv, x));
+        }
+    }
+    // all-(p-1) and all-1 coefficients at the embedded -1
+    out.push(Op::EvalMixed(vec![p - 1, 1, p - 1, 1], g.m1()));
+    // ---- eval_many_mixed
+    let lens: &[usize] = if lvl >= 1 { &[0, 1, 3, 8, 64] } else { &[0, 3, 8] };
+    for (i, &l) in lens.iter().enumerate() {
+        let pv = g.bshape(l, [0, 1, 2][i % 3], i % 2);
+        let xs: Vec<C> = (0..5).map(|j| point(g, j)).collect();
+        out.push(Op::EvalManyMixed(pv, xs));
+    }
+    out.push(Op::EvalManyMixed(g.bshape(3, 0, 0), vec![]));
+    if lvl >= 1 {
+        out.push(Op::EvalManyMixed(g.bshape(7, 1, 0), vec![g.low_zero()]));
+    }
+    // ---- mul_acc_mixed
+    let cc = |g: &mut G<C>, i: usize| match i % 4 {
+        0 => C::ZERO,
+        1 => C::ONE,
+        2 => g.embedded(),
+        _ => g.rnd(),
+    };
+    let bvec = |g: &mut G<C>, l: usize| {
+        let mut b = g.bshape(l, 0, 0);
+        for (j, v) in [0u128, 1, p - 1].into_iter().enumerate() {
+            if j < l && l >= 2 {
+                b[(j * 3) % l] = v;
+            }
+        }
+        b
+    };
+    let mut kc = 0usize;
+    for l in [0usize, 1, 2, 3, 8, 9, 64] {
+        for _ in 0..(if lvl >= 1 { 2 } else { 1 }) {
+            let (a, b) = (g.vec(l), bvec(g, l));
+            let c = cc(g, kc);
+            kc += 1;
+            out.push(Op::MulAccMixed(a, b, c));
+        }
+    }
+    out.push(Op::MulAccMixed(g.vec(4), vec![0; 4], g.rnd()));
+    for (i, (la, lb)) in [(3usize, 2usize), (2, 3), (0, 1), (1, 0), (8, 9)].into_iter().enumerate() {
+        if lvl >= 1 || i < 4 {
+            let (a, b) = (g.vec(la), bvec(g, lb));
+            out.push(Op::MulAccMixed(a, b, g.rnd()));
+        }
+    }
+    if thorough && lvl >= 1 {
+        out.push(Op::EvalMixed(g.bshape(1024, 1, 1), g.rnd()));
+        let (a, b) = (g.vec(1024), bvec(g, 1024));
+        out.push(Op::MulAccMixed(a, b, g.rnd()));
+    }
+}
+
 fn small_len<C: CF>(g: &mut G<C>) -> usize {
     let m = g.cap(21, 10);
     match g.r.below(20) {
@@ -1015,10 +1182,39 @@ fn rshape<C: CF>(g: &mut G<C>, l: usize) -> Vec<C> {
     g.shape(l, hz, lz)
 }
 
+fn rbshape<C: CF>(g: &mut G<C>, l: usize) -> Vec<u128> {
+    let hz = match g.r.below(8) {
+        0 => 1,
+        1 => 2,
+        2 => ALL,
+        _ => 0,
+    };
+    let lz = g.r.below(6).saturating_sub(3) as usize;
+    g.bshape(l, hz, lz)
+}
+
 /// mostly-valid structured stream
 fn random_op<C: CF>(g: &mut G<C>) -> Op<C> {
     let l = small_len(g);
-    match g.r.below(24) {
+    let nops = g.cap(24, 28);
+    match g.r.below(nops) {
+        24 | 25 => {
+            let x = match g.r.below(4) {
+                0 => g.embedded(),
+                1 => g.low_zero(),
+                _ => g.elem(),
+            };
+            if g.r.chance(1, 3) {
+                let n = g.r.below(6) as usize;
+                Op::EvalManyMixed(rbshape(g, l), g.vec(n))
+            } else {
+                Op::EvalMixed(rbshape(g, l), x)
+            }
+        }
+        26 | 27 => {
+            let c = if g.r.chance(1, 4) { g.embedded() } else { g.elem() };
+            Op::MulAccMixed(rshape(g, l), rbshape(g, l), c)
+        }
         0 => Op::Eval(rshape(g, l), g.elem()),
         1 => {
             let n = g.r.below(6) as usize;
@@ -1127,7 +1323,12 @@ fn random_op<C: CF>(g: &mut G<C>) -> Op<C> {
 /// malformed stream: inputs from the rejected classes (and their neighbours)
 fn malformed_op<C: CF>(g: &mut G<C>) -> Op<C> {
     let l = 1 + g.r.below(g.cap(10, 6)) as usize;
-    match g.r.below(12) {
+    let nops = g.cap(12, 13);
+    match g.r.below(nops) {
+        12 => {
+            let lb = l - 1 + 2 * g.r.below(2) as usize;
+            Op::MulAccMixed(g.vec(l), g.bshape(lb, 0, 0), g.elem())
+        }
         0 => Op::Div(rshape(g, l), vec![C::ZERO; g.r.below(4) as usize]),
         1 => {
             let lb = l + 1 + g.r.below(3) as usize;
@@ -1205,6 +1406,7 @@ fn corr(seed: u64, n: usize) {
             let mut g = G::<$t>::new(seed ^ $salt);
             let mut ops = Vec::new();
             boundary(&mut g, $lvl, thorough, &mut ops);
+            boundary_mixed(&mut g, $lvl, thorough, &mut ops);
             for op in &ops {
                 emit_case(op, &mut dist);
             }
